@@ -11,6 +11,7 @@ L(s) == [k |-> "lit", s |-> s]
 Dyn(n) == [k |-> "dyn", name |-> n]
 Dig(n) == [k |-> "dig", name |-> n]
 AB(n) == [k |-> "ab", name |-> n]
+Grp(n) == [k |-> "grp", name |-> n]
 Tl(n) == [k |-> "tail", name |-> n]
 Pats == <<
   <<L(<<"/">>)>>, <<L(<<"/", "a">>)>>, <<L(<<"/", "a", "/">>)>>, <<L(<<"/", "a", "/", "b">>)>>, <<L(<<>>)>>,
@@ -21,7 +22,9 @@ Pats == <<
   <<Dyn("x")>>, <<L(<<"/">>), Dyn("x"), L(<<"1">>)>>, <<L(<<"/", "1">>), Dyn("x")>>,
   \* literal text with regex meta characters before / between / after dynamic segments
   <<L(<<"/">>), Dyn("x"), L(<<".", "a">>)>>, <<L(<<"/">>), Dyn("x"), L(<<"+", "1">>)>>, <<L(<<"/", "a", ".">>), Dyn("x")>>,
-  <<L(<<"/">>), Dyn("x"), L(<<"(", "a">>), Dyn("y")>>, <<L(<<"/", "a", "*", "1">>)>>, <<L(<<"/">>), Dig("n"), L(<<"?">>)>> >>
+  <<L(<<"/">>), Dyn("x"), L(<<"(", "a">>), Dyn("y")>>, <<L(<<"/", "a", "*", "1">>)>>, <<L(<<"/">>), Dig("n"), L(<<"?">>)>>,
+  \* a custom regex with a capturing group of its own in front of further parameters
+  <<L(<<"/">>), Grp("k"), L(<<"/">>), Dyn("x")>>, <<L(<<"/">>), Grp("k"), L(<<"/">>), Dyn("x"), L(<<"/">>), Dig("n")>> >>
 HasTail(p) == \E i \in 1..Len(p) : p[i].k = "tail"
 Paths == UNION {[1..n -> Alphabet] : n \in 0..MaxLen}
 MatchCases == {[kind |-> "match", pats |-> <<Pats[i]>>, prefix |-> pf, path |-> p] : i \in 1..Len(Pats), pf \in BOOLEAN, p \in Paths}
